@@ -470,8 +470,23 @@ fn gen_c20(tier: &str, rng: &mut Rng) -> Vec<Case> {
         }
     }
     let n = if tier == "thorough" { 60000 } else { 4000 };
-    for _ in 0..n {
+    for k in 0..n {
         let (html, _) = gen_doc(rng, GenOpts { classes: true, ids: true, tables: 1, links: false, wide: false, combining: false, imgs: false, max_blocks: 5, ..Default::default() });
+        // one case in eight: markup that the HTML parser moves (content written directly inside
+        // <table>/<tr> is foster-parented in front of the table; misnested inline formatting is
+        // rebuilt) - the selectors must see the tree the parser built
+        let html = if k % 8 == 0 {
+            rng.pick(&[
+                "<div id=\"id1\"><p>qay</p><table><span class=\"ca\">qby <em>qcy</em></span><tr><td>qdy</td></tr></table></div>",
+                "<div class=\"cb\"><table><tr><p class=\"ca\">qay</p><td>qby</td><span>qcy</span></tr></table><p>qdy</p></div>",
+                "<ul><li>qay<table><li class=\"ca\">qby</li><tr><td><span id=\"id2\">qcy</span></td></tr></table></li><li>qdy</li></ul>",
+                "<p class=\"ca\">qay<em>qby<p>qcy</em>qdy</p><div><span>qey</span></div>",
+                "<div><em class=\"cb\">qay<div>qby</div>qcy</em><p id=\"id3\">qdy</p></div>",
+            ])
+            .to_string()
+        } else {
+            html
+        };
         let np = rng.range(1, 4);
         let mut parts = Vec::new();
         for k in 0..np {
@@ -652,7 +667,8 @@ fn nontrivial_c20(_c: &Case, r: &RunResult) -> bool {
 // ======================================================================
 // C17 CSS never breaks rendering; insignificant syntax
 // ======================================================================
-const SOUP: [&str; 46] = [
+const SOUP: [&str; 52] = [
+    "\u{80}", "\u{81}", "\u{a0}", "\u{7f}", "\u{fffd}", "\u{85}",
     "p", "div", ".ca", "#id1", "{", "}", ";", ":", ",", ">", "*", " ", "\n", "/*", "*/", "color", "red", "#fff", "#12345", "rgb(", ")", "1", "2n+1",
     ":nth-child(", "!important", "@media", "@import", "/", "/*/", "\"", "'", "\\", "url(", "[", "]", "(", "-", "+", ".", "0px", "50%", "background", "<!--", "-->", "e\u{301}", "中",
 ];
@@ -1027,6 +1043,18 @@ fn gen_c18(tier: &str, rng: &mut Rng) -> Vec<Case> {
                     cfg.user_css.push(format!("{} {{ display: none !important; }}", sel.join(", ")));
                 }
             }
+        }
+        // the class sheet may also come from a <style> element anywhere in the document (head,
+        // between blocks of the body, at the end): the hidden variant carries it, the deleted one
+        // carries the same element with an inert rule
+        let (mut marked, mut deleted) = (marked, deleted);
+        if mode == 0 && rng.chance(1, 2) {
+            let rule = cfg.user_css.pop().unwrap();
+            cfg.doc_css = true;
+            cfg_plain.doc_css = true;
+            let k = rng.below(marked.len().min(deleted.len()) + 1);
+            marked.insert(k, H::El("style".into(), vec![], vec![H::Text(rule)]));
+            deleted.insert(k, H::El("style".into(), vec![], vec![H::Text(".nomatch{color:red}".into())]));
         }
         let w = if rng.chance(1, 3) { rng.range(1, 12) } else { rng.range(1, 100) };
         let route = if cfg.deco == 2 { 1 } else { 0 };
